@@ -96,6 +96,33 @@ class C20(Prop):
             else:
                 c['type'] = gen_typedesc(rng, False)
             misc.append(c)
+        # the module's type-creation shortcuts, against the explicit descriptors they stand for
+        fact = []
+        for _ in range(max(40, n // 8)):
+            ids = rng.choice(TYPES + [[]])
+            root = rng.random() < 0.4
+            nm = rng.choice(NAMES)
+            dv = rng.choice(['', '123u', 'nullptr', '{}'])
+            fact.append(rng.choice([
+                {'op': 'cpp.misc', 'kind': 'typedesc', 'factory': 'void_t', 'type': {'fqn': {'ids': ['void'], 'root': False}}},
+                {'op': 'cpp.misc', 'kind': 'typedesc', 'factory': 'int_t', 'type': {'fqn': {'ids': ['int'], 'root': False}}},
+                {'op': 'cpp.misc', 'kind': 'typedesc', 'factory': 'float_t', 'type': {'fqn': {'ids': ['float'], 'root': False}}},
+                {'op': 'cpp.misc', 'kind': 'typedesc', 'factory': 'double_t', 'type': {'fqn': {'ids': ['double'], 'root': False}}},
+                {'op': 'cpp.misc', 'kind': 'typedesc', 'factory': 'fqn_t', 'type': {'fqn': {'ids': ids, 'root': root}}},
+                {'op': 'cpp.misc', 'kind': 'membervar', 'factory': 'decl_var_t', 'type': {'fqn': {'ids': ids or ['T'], 'root': root}, 'postfix': ''}, 'name': nm},
+                {'op': 'cpp.misc', 'kind': 'membervar', 'factory': 'decl_var_ref_t', 'type': {'fqn': {'ids': ids or ['T'], 'root': root}, 'postfix': '&'}, 'name': nm},
+                {'op': 'cpp.misc', 'kind': 'membervar', 'factory': 'decl_var_ptr_t', 'type': {'fqn': {'ids': ids or ['T'], 'root': root}, 'postfix': '*'}, 'name': nm},
+                {'op': 'cpp.function', 'factory': 'param_t', 'ret': {'fqn': {'ids': ['void'], 'root': False}}, 'name': 'f',
+                 'params': [{'type': {'fqn': {'ids': ids or ['T'], 'root': root}, 'postfix': '', 'const': False, 'default': dv}, 'name': nm}],
+                 'prefix': '', 'cav': '', 'override': False, 'init': '', 'contents': '', 'scope': None},
+                {'op': 'cpp.function', 'factory': 'const_param_ref_t', 'ret': {'fqn': {'ids': ['void'], 'root': False}}, 'name': 'f',
+                 'params': [{'type': {'fqn': {'ids': ids or ['T'], 'root': root}, 'postfix': '&', 'const': True, 'default': dv}, 'name': nm}],
+                 'prefix': '', 'cav': '', 'override': False, 'init': '', 'contents': '', 'scope': None},
+                {'op': 'cpp.function', 'factory': 'const_param_ptr_t', 'ret': {'fqn': {'ids': ['void'], 'root': False}}, 'name': 'f',
+                 'params': [{'type': {'fqn': {'ids': ids or ['T'], 'root': root}, 'postfix': '*', 'const': True, 'default': dv}, 'name': nm}],
+                 'prefix': '', 'cav': '', 'override': False, 'init': '', 'contents': '', 'scope': None},
+            ]))
+        yield 'type-creation-functions', fact
         yield 'functions', fns
         yield 'ctors', ctors
         yield 'blocks', blocks
@@ -109,6 +136,23 @@ class C20(Prop):
         from dznpy.scoping import NamespaceIds
         from dznpy.text_gen import TextBlock
         op = case['op']
+        fac = case.get('factory')
+        if fac:
+            from dznpy.cpp_gen import Fqn
+            def fq(d):
+                return cpp_gen.fqn_t(list(d['ids']) if d['ids'] else rng_free_empty(d), d.get('root', False))
+            def rng_free_empty(d):
+                return []
+            if fac in ('void_t', 'int_t', 'float_t', 'double_t'):
+                return str(getattr(cpp_gen, fac)())
+            if fac == 'fqn_t':
+                return str(cpp_gen.TypeDesc(fqn=fq(case['type']['fqn'])))
+            if fac.startswith('decl_var'):
+                return str(getattr(cpp_gen, fac)(fq(case['type']['fqn']), case['name']))
+            pd = case['params'][0]
+            prm = getattr(cpp_gen, fac)(fq(pd['type']['fqn']), pd['name'], pd['type']['default'])
+            f = Function(cpp_gen.void_t(), case['name'], [prm])
+            return {'decl': f.as_decl, 'def': f.as_def}
         if op == 'cpp.function':
             scope = Struct(case['scope']) if case.get('scope') else None
             pf = {'': FunctionPrefix.MEMBER_FUNCTION, 'virtual': FunctionPrefix.VIRTUAL, 'static': FunctionPrefix.STATIC}[case['prefix']]
